@@ -21,6 +21,7 @@ RULE = (
     "and compared with the model's element count. "
     "History: three generated cases in ten (choices drawn from a separate random stream derived from the case) run one or two EARLIER reads with the same file class "
     "(its own content, once or twice over) before the observed read - completed, interrupted by an exception raised out of the k-th append, or aborted by an exception raised by the k-th "
+    "(one case in four: first of all a file class of the OTHER storage that declares the same component types reads the content) "
     "element's read() and caught by the application; the observed read is judged exactly as the model computes it for its content ALONE (earlier reads leave nothing behind), and the "
     "elements of the file that File.read RETURNS are counted as well as the append() calls (elements = returned elements minus the placeholder). "
     "non-trivial = non-empty content; distinct by full case."
@@ -134,15 +135,27 @@ def failing_element(classes, k):
     return cm()
 
 
-def run_history(case, read, classes, x, budget):
+def other_storage_class(F, attr, binary):
+    """a second file class of the same family that declares the SAME component types under the other storage
+    (one record layout used by a binary and by a text format of a deck)"""
+    base = [b for b in F.__mro__ if b.__module__.startswith("cfinterface.files")][0]
+    return type("OtherStorage", (base,), {attr: list(getattr(F, attr)), "STORAGE": "TEXT" if binary else "BINARY", "__slots__": []})
+
+
+def run_history(case, read, classes, x, budget, other=None):
     """the earlier reads of case["before"], with the same file class: whatever they do (return, raise, get
     interrupted) is the application's business and is not judged here; `read(content, budget)`"""
     done = []
     for h in case.get("before") or []:
-        w = x * h["times"]
-        wb = budget * h["times"] + 8
+        w = x * h.get("times", 1)
+        wb = budget * h.get("times", 1) + 8
         try:
-            if h["mode"] == "interrupt":
+            if h["mode"] == "other_storage":
+                # the same component types were used by a file class of the OTHER storage first
+                if other is not None:
+                    other(x)
+                done.append("returned")
+            elif h["mode"] == "interrupt":
                 o = read(w, h["k"])  # the (k+1)-th append raises
                 done.append("interrupted" if not o["returned"] else "returned")
             elif h["mode"] == "element":
@@ -165,8 +178,9 @@ def describe_history(case):
         "interrupt": "a read of {c} interrupted by an exception out of append number {k1}",
         "element": "a read of {c} aborted by an exception raised by the read() of element number {k}",
         "complete": "a completed read of {c}",
+        "other_storage": "a read of {c} by a file class of the OTHER storage declaring the same component types",
     }
-    parts = [words[h["mode"]].format(c="the same content" if h["times"] == 1 else "the same content twice over", k=h["k"], k1=h["k"] + 1) for h in hs]
+    parts = [words[h["mode"]].format(c="the same content" if h.get("times", 1) == 1 else "the same content twice over", k=h.get("k", 0), k1=h.get("k", 0) + 1) for h in hs]
     return "after " + " and ".join(parts) + " with the same file class: "
 
 
@@ -248,7 +262,13 @@ def run_impl(case):
                 def read_txt(content, b=budget):
                     return count_appends(RegisterData, b, lambda: RF.read(content), nt)
 
-                hist = run_history(case, read_bin if binary else read_txt, list(rclasses) + [DefaultRegister], x, budget)
+                def other_reg(content):
+                    # (under the step budget: with the other storage the same types may never consume, e.g. a
+                    # record of width zero in binary storage - that read is not the observed one)
+                    O = other_storage_class(RF, "REGISTERS", binary)
+                    count_appends(RegisterData, budget, lambda: O.read(content.decode("latin-1") if binary else content.encode("latin-1", "replace")), nt)
+
+                hist = run_history(case, read_bin if binary else read_txt, list(rclasses) + [DefaultRegister], x, budget, other_reg)
                 if binary and any(b >= 128 for b in x):
                     # bytes that are not ASCII: a window that does not decode ends the read with UnicodeDecodeError
                     # (termination, outside the modelled domain).  The TWIN content (those bytes replaced by "z")
@@ -269,7 +289,11 @@ def run_impl(case):
                 def read_blk(content, b=budget):
                     return count_appends(BlockData, b, lambda: BF.read(content), len(case["blocks"]))
 
-                hist = run_history(case, read_blk, list(bclasses) + [DefaultBlock], x, budget)
+                def other_blk(content):
+                    O = other_storage_class(BF, "BLOCKS", binary)
+                    count_appends(BlockData, budget, lambda: O.read(content.decode("latin-1") if binary else content.encode("latin-1", "replace")), len(case["blocks"]))
+
+                hist = run_history(case, read_blk, list(bclasses) + [DefaultBlock], x, budget, other_blk)
                 return {**read_blk(x), "history": hist}
             from cfinterface.components.defaultsection import DefaultSection
             from cfinterface.data.sectiondata import SectionData
@@ -279,7 +303,11 @@ def run_impl(case):
             def read_sec(content, b=budget):
                 return count_appends(SectionData, b, lambda: SF.read(content))
 
-            hist = run_history(case, read_sec, list(sclasses) + [DefaultSection], x, budget)
+            def other_sec(content):
+                O = other_storage_class(SF, "SECTIONS", binary)
+                count_appends(SectionData, budget, lambda: O.read(content.decode("latin-1") if binary else content.encode("latin-1", "replace")))
+
+            hist = run_history(case, read_sec, list(sclasses) + [DefaultSection], x, budget, other_sec)
             return {**read_sec(x), "history": hist}
     except Exception as e:
         return codec.enc_exc(e)
@@ -403,15 +431,19 @@ def with_history(case):
 
     if case.get("bad_byte_path"):
         return case
+    # (a stream of its own again:) one case in four has the component types used by a file class of the other
+    # storage first
+    ho = random.Random(zlib.crc32(("other-storage " + json.dumps(case, sort_keys=True)).encode()))
+    first = [{"mode": "other_storage"}] if ho.random() < 0.25 else []
     hr = random.Random(zlib.crc32(json.dumps(case, sort_keys=True).encode()))
     if hr.random() >= 0.3:
-        return case
+        return {**case, "before": first} if first else case
     before = []
     for _ in range(hr.choice([1, 1, 2])):
         mode = hr.choice(["interrupt", "element", "element", "complete"])
         k = hr.choice([1, 2, 3]) if mode == "interrupt" else hr.choice([2, 2, 3, 4]) if mode == "element" else 0
         before.append({"mode": mode, "k": k, "times": hr.choice([1, 1, 2])})
-    return {**case, "before": before}
+    return {**case, "before": first + before}
 
 
 def random_case0(rng):
